@@ -14,6 +14,15 @@ from ..terms import HirFront, norm, show
 
 LEVEL = "translation_validation"
 
+# C14 has three parties: the checked-in grammar.rs, a fresh expansion, and the VM over the optimized grammar.pest.
+# FRESH (below) decides checked-in = fresh. "fresh = VM" on the meta-grammar is an instance of C02's generator/VM
+# agreement, decided for every construct (grammar.pest uses no grammar-extras construct, so the default configuration).
+DEPENDS = [
+    ("C02", {"configs": ["default"],
+             "why": "the VM run of grammar.pest agrees with the generated parser iff each construct, rule modifier, "
+                    "built-in, skip case and entry dispatch is translated alike"}),
+]
+
 MANIFEST = {
     "technique": "translation validation by regeneration: the derive macro is expanded at compile time in a harness "
                  "crate from the repository's grammar.pest, and the typed HIR of that expansion is compared, function "
